@@ -99,7 +99,7 @@ def run(tier):
     # random larger replies
     univ = rc.adversarial_universe()
     cases = []
-    for _ in range(3000 if tier == "quick" else 60000):
+    for _ in range(3000 if tier == "quick" else 30000):
         rep = {"rcode": r_.choice([0, 0, 3]), "answers": [], "authority": [], "additional": []}
         for _k in range(r_.randint(0, 7)):
             rep[r_.choice(["answers", "answers", "authority", "additional"])].append(r_.choice(univ))
